@@ -136,61 +136,138 @@ theorem pyInt_neg_long {ds : Text} (hne : ds ≠ []) (hall : ds.all isDigit = tr
     simp at hlen
     simp [hall]; omega
 
+/-! #### significant digits -/
+
+theorem digitsVal_lt : ∀ (ds : Text), (∀ c ∈ ds, isDigit c = true) → digitsVal ds < 10 ^ ds.length
+  | [], _ => by simp [digitsVal]
+  | d :: r, h => by
+    have ih := digitsVal_lt r (fun c hc => h c (by simp [hc]))
+    have hd := (isDigit_iff d).1 (h d (by simp))
+    rw [PRT.digitsVal_cons, List.length_cons, Nat.pow_succ]
+    have : (d - 48) * 10 ^ r.length ≤ 9 * 10 ^ r.length := Nat.mul_le_mul_right _ (by omega)
+    omega
+
+theorem digitsVal_ge {d : Nat} (r : Text) (hd : 49 ≤ d) : 10 ^ r.length ≤ digitsVal (d :: r) := by
+  rw [PRT.digitsVal_cons]
+  have : 1 * 10 ^ r.length ≤ (d - 48) * 10 ^ r.length := Nat.mul_le_mul_right _ (by omega)
+  omega
+
+theorem natDigits_length_le {n k : Nat} (hk : 0 < k) (h : n < 10 ^ k) : (natDigits n).length ≤ k := by
+  have := (PRT.natDigitsAux_spec (n + 1) n [] (by omega) (by simp)).2.2.2.2 k hk h
+  simpa [natDigits] using this
+
+/-- a numeral without superfluous zeros has as many digits as the printed value -/
+theorem natDigits_length_canonical {ds : Text} (h : Canonical ds) :
+    (natDigits (digitsVal ds)).length = ds.length := by
+  rcases h with rfl | ⟨d, r, rfl, h1, h2, hr⟩
+  · rfl
+  · have hall : ∀ c ∈ d :: r, isDigit c = true := by
+      intro c hc
+      simp only [List.mem_cons] at hc
+      rcases hc with rfl | hc
+      · exact (isDigit_iff c).2 ⟨by omega, h2⟩
+      · exact hr c hc
+    have hlt := digitsVal_lt (d :: r) hall
+    have hge := digitsVal_ge r h1
+    have hle := natDigits_length_le (k := (d :: r).length) (by simp) hlt
+    have hval := digitsVal_lt (natDigits (digitsVal (d :: r))) (PRT.natDigits_digits _)
+    rw [natDigits_val] at hval
+    simp only [List.length_cons] at hle ⊢
+    by_cases hL : (natDigits (digitsVal (d :: r))).length ≤ r.length
+    · have := Nat.pow_le_pow_right (n := 10) (by decide) hL
+      omega
+    · omega
+
+/-- the number of significant digits of a digit string is that of its printed value -/
+theorem sig_length {w : Text} (h : ∀ c ∈ w, isDigit c = true) :
+    (stripZeros w).length = (natDigits (digitsVal w)).length := by
+  rw [← digitsVal_stripZeros w, natDigits_length_canonical (stripZeros_canonical h)]
+
+theorem pyInt_stripZeros {w : Text} (h : ∀ c ∈ w, isDigit c = true)
+    (hl : (natDigits (digitsVal w)).length ≤ 4300) :
+    pyInt (stripZeros w) = some (some (digitsVal w : Int)) := by
+  rw [pyInt_of_digits (stripZeros_ne_nil w) (List.all_eq_true.mpr (stripZeros_all h))
+    (by rw [sig_length h]; exact hl), digitsVal_stripZeros]
+
+theorem pyInt_neg_stripZeros {w : Text} (h : ∀ c ∈ w, isDigit c = true)
+    (hl : (natDigits (digitsVal w)).length ≤ 4300) :
+    pyInt (45 :: stripZeros w) = some (some (-(digitsVal w : Int))) := by
+  rw [pyInt_neg_digits (stripZeros_ne_nil w) (List.all_eq_true.mpr (stripZeros_all h))
+    (by rw [sig_length h]; exact hl), digitsVal_stripZeros]
+
+/-! #### repetition bounds -/
+
 theorem numSpell_of_absNum {w : Text} {n : Nat} (h : absNum w = some n) (hw : IsDigits w) :
     n ≤ 4294967295 ∧ NumSpell n w := by
   unfold absNum at h
-  by_cases hlen : w.length ≤ 4300
-  · rw [pyInt_of_digits hw.1 (isDigits_all hw) hlen] at h
+  by_cases hl : (stripZeros w).length > 10
+  · rw [if_pos hl] at h; cases h
+  · rw [if_neg hl] at h
+    rw [pyInt_stripZeros hw.2 (by rw [← sig_length hw.2]; omega)] at h
     simp only at h
     split at h
     · cases h
     · rename_i hle
       cases h
       simp only [MAX_REPEAT, Int.not_lt] at hle
-      refine ⟨by simpa using (by omega : (digitsVal w : Int).toNat ≤ 4294967295), hw.1, isDigits_all hw, hlen, ?_⟩
+      refine ⟨by simpa using (by omega : (digitsVal w : Int).toNat ≤ 4294967295), hw.1, isDigits_all hw, ?_⟩
       simp
-  · rw [pyInt_long hw.1 (isDigits_all hw) (by omega)] at h
-    cases h
 
 theorem absNum_of_numSpell {w : Text} {n : Nat} (h : NumSpell n w) (hn : n ≤ 4294967295) :
     absNum w = some n := by
-  obtain ⟨h1, h2, h3, rfl⟩ := h
+  obtain ⟨h1, h2, rfl⟩ := h
+  have hall : ∀ c ∈ w, isDigit c = true := List.all_eq_true.mp h2
+  have hlen := natDigits_length hn
   unfold absNum
-  rw [pyInt_of_digits h1 h2 h3]
+  rw [if_neg (by rw [sig_length hall]; omega), pyInt_stripZeros hall (by omega)]
   have : ¬ ((digitsVal w : Int) > MAX_REPEAT) := by simp only [MAX_REPEAT]; omega
   simp only [if_neg this]
   simp
 
+/-! #### slice indices -/
+
 theorem intSpell_of_absInt {w : Text} {i : Int} (h : absInt w = some i) (hw : IsIntTok w) :
-    IntSpell i w := by
+    IntSpell i w ∧ SliceIdxOK (some i) := by
   unfold absInt at h
   rcases hw with hw | ⟨zs, d, ds, rfl, hz, hd1, hd2, hds⟩
-  · by_cases hlen : w.length ≤ 4300
-    · rw [pyInt_of_digits hw.1 (isDigits_all hw) hlen] at h
+  · rw [intLiteral_pos (head_ne_minus_of_digits hw.2)] at h
+    by_cases hlen : (natDigits (digitsVal w)).length ≤ 4300
+    · rw [pyInt_stripZeros hw.2 hlen] at h
       cases h
-      exact .nonneg ⟨hw.1, isDigits_all hw, hlen, rfl⟩
-    · rw [pyInt_long hw.1 (isDigits_all hw) (by omega)] at h
+      exact ⟨.nonneg ⟨hw.1, isDigits_all hw, rfl⟩, by simpa [SliceIdxOK] using hlen⟩
+    · rw [pyInt_long (stripZeros_ne_nil w) (List.all_eq_true.mpr (stripZeros_all hw.2))
+        (by rw [sig_length hw.2]; omega)] at h
       cases h
-  · have hall : (zs ++ d :: ds).all isDigit = true := by
-      simp only [List.all_append, List.all_cons, Bool.and_eq_true, List.all_eq_true]
-      refine ⟨fun z hz' => by rw [hz z hz']; decide, by simp [isDigit]; omega, hds⟩
+  · have hall : ∀ c ∈ zs ++ d :: ds, isDigit c = true := by
+      intro c hc
+      simp only [List.mem_append, List.mem_cons] at hc
+      rcases hc with hc | rfl | hc
+      · rw [hz c hc]; decide
+      · exact (isDigit_iff c).2 ⟨by omega, hd2⟩
+      · exact hds c hc
     have hne : zs ++ d :: ds ≠ [] := by simp
-    by_cases hlen : (zs ++ d :: ds).length ≤ 4300
-    · rw [pyInt_neg_digits hne hall hlen] at h
+    rw [intLiteral_neg] at h
+    by_cases hlen : (natDigits (digitsVal (zs ++ d :: ds))).length ≤ 4300
+    · rw [pyInt_neg_stripZeros hall hlen] at h
       cases h
-      exact .neg hz hd1 hd2 ⟨hne, hall, hlen, rfl⟩
-    · rw [pyInt_neg_long hne hall (by omega)] at h
+      refine ⟨.neg hz hd1 hd2 ⟨hne, List.all_eq_true.mpr hall, rfl⟩, ?_⟩
+      simpa [SliceIdxOK] using hlen
+    · rw [pyInt_neg_long (stripZeros_ne_nil _) (List.all_eq_true.mpr (stripZeros_all hall))
+        (by rw [sig_length hall]; omega)] at h
       cases h
 
-theorem absInt_of_intSpell {w : Text} {i : Int} (h : IntSpell i w) : absInt w = some i := by
+theorem absInt_of_intSpell {w : Text} {i : Int} (h : IntSpell i w) (hi : SliceIdxOK (some i)) :
+    absInt w = some i := by
   unfold absInt
   cases h with
   | nonneg hn =>
-    obtain ⟨h1, h2, h3, rfl⟩ := hn
-    rw [pyInt_of_digits h1 h2 h3]
+    obtain ⟨h1, h2, rfl⟩ := hn
+    have hall : ∀ c ∈ w, isDigit c = true := List.all_eq_true.mp h2
+    rw [intLiteral_pos (head_ne_minus_of_digits hall), pyInt_stripZeros hall (by simpa [SliceIdxOK] using hi)]
   | neg hz hd1 hd2 hn =>
-    obtain ⟨h1, h2, h3, rfl⟩ := hn
-    rw [pyInt_neg_digits h1 h2 h3]
+    obtain ⟨h1, h2, rfl⟩ := hn
+    have hall := List.all_eq_true.mp h2
+    rw [intLiteral_neg, pyInt_neg_stripZeros hall (by simpa [SliceIdxOK] using hi)]
 
 /-! ### spelling ↔ value: character literals -/
 
@@ -419,19 +496,20 @@ theorem posts_g1 : ∀ {ps : List CPost} {qs : List Post}, absPosts ps = some qs
         · exact w2 x hx
 
 theorem optInt_g1 {a : Option Text} {x : Option Int} (h : absOptInt a = some x)
-    (hv : ∀ w, a = some w → IsIntTok w) : Act (optIntKV x) (optKV .integer a) := by
+    (hv : ∀ w, a = some w → IsIntTok w) : SliceIdxOK x ∧ Act (optIntKV x) (optKV .integer a) := by
   cases a with
   | none =>
     simp only [absOptInt, Option.some.injEq] at h
     subst h
-    exact .nil
+    exact ⟨trivial, .nil⟩
   | some w =>
     simp only [absOptInt] at h
     cases hw : absInt w with
     | none => rw [hw] at h; cases h
     | some i =>
       rw [hw] at h; cases h
-      exact .cons (actKV_integer (intSpell_of_absInt hw (hv w rfl))) .nil
+      obtain ⟨hs, hi⟩ := intSpell_of_absInt hw (hv w rfl)
+      exact ⟨hi, .cons (actKV_integer hs) .nil⟩
 
 mutual
 theorem node_g1 : ∀ (nd : CNode) (n : SNode), nd.abs = some n → nd.Valid → n.WF' ∧ Act n.kv nd.kv
@@ -497,10 +575,10 @@ theorem node_g1 : ∀ (nd : CNode) (n : SNode), nd.abs = some n → nd.Valid →
       | some y =>
         rw [ha, hb] at h
         cases h
-        refine ⟨by simp [SNode.WF'], ?_⟩
+        refine ⟨by simp only [SNode.WF']; exact ⟨(optInt_g1 ha hv.1).1, (optInt_g1 hb hv.2).1⟩, ?_⟩
         simp only [SNode.kv, CNode.kv]
         exact act_append (act_append (act_append (act_append (act_refl_plain _ (by simp [Plain]))
-          (optInt_g1 ha hv.1)) (act_refl_plain _ (by simp [Plain]))) (optInt_g1 hb hv.2))
+          (optInt_g1 ha hv.1).2) (act_refl_plain _ (by simp [Plain]))) (optInt_g1 hb hv.2).2)
           (act_refl_plain _ (by simp [Plain]))
   | .paren bar e, n, h, hv => by
     simp only [CNode.abs] at h
@@ -690,7 +768,7 @@ theorem posts_g2 : ∀ (qs : List Post), (∀ q ∈ qs, WFPost q) → ∀ {L : L
     obtain ⟨ps, hps, rfl⟩ := posts_g2 qs (fun x hx => hq x (by simp [hx])) hb
     exact ⟨p :: ps, by simp [absPosts, hp, hps], by simp⟩
 
-theorem optInt_g2 {x : Option Int} {L : List KV} (h : Act (optIntKV x) L) :
+theorem optInt_g2 {x : Option Int} (hx : SliceIdxOK x) {L : List KV} (h : Act (optIntKV x) L) :
     ∃ a : Option Text, absOptInt a = some x ∧ optKV .integer a = L := by
   cases x with
   | none => exact ⟨none, rfl, (act_nil_inv h).symm⟩
@@ -699,7 +777,7 @@ theorem optInt_g2 {x : Option Int} {L : List KV} (h : Act (optIntKV x) L) :
     obtain ⟨k1, l1, rfl, h1, h⟩ := act_cons_inv h
     cases act_nil_inv h
     obtain ⟨w, rfl, hw⟩ := actKV_integer_inv h1
-    exact ⟨some w, by simp [absOptInt, absInt_of_intSpell hw], rfl⟩
+    exact ⟨some w, by simp [absOptInt, absInt_of_intSpell hw hx], rfl⟩
 
 mutual
 theorem node_g2 : ∀ (n : SNode), n.WF' → ∀ (L : List KV), Act n.kv L →
@@ -738,14 +816,15 @@ theorem node_g2 : ∀ (n : SNode), n.WF' → ∀ (L : List KV), Act n.kv L →
     rw [act_plain_inv (by simp [Plain]) h1, act_plain_inv (plain_barKV bar) h2,
       act_plain_inv (by simp [Plain]) h4]
     exact ⟨.push bar ce, by simp [CNode.abs, hce], by simp [CNode.kv]⟩
-  | .slice a b, _, L, h => by
+  | .slice a b, hw, L, h => by
     simp only [SNode.kv] at h
+    simp only [SNode.WF'] at hw
     obtain ⟨l1234, l5, rfl, h1234, h5⟩ := act_append_inv _ h
     obtain ⟨l123, l4, rfl, h123, h4⟩ := act_append_inv _ h1234
     obtain ⟨l12, l3, rfl, h12, h3⟩ := act_append_inv _ h123
     obtain ⟨l1, l2, rfl, h1, h2⟩ := act_append_inv _ h12
-    obtain ⟨ca, hca, rfl⟩ := optInt_g2 h2
-    obtain ⟨cb, hcb, rfl⟩ := optInt_g2 h4
+    obtain ⟨ca, hca, rfl⟩ := optInt_g2 hw.1 h2
+    obtain ⟨cb, hcb, rfl⟩ := optInt_g2 hw.2 h4
     rw [act_plain_inv (by simp [Plain]) h1, act_plain_inv (by simp [Plain]) h3,
       act_plain_inv (by simp [Plain]) h5]
     exact ⟨.slice ca cb, by simp [CNode.abs, hca, hcb], by simp [CNode.kv]⟩
@@ -845,6 +924,14 @@ theorem docLine_facts {l : Text} (h : IsDocLine l) : NoLF l ∧ l.getLast? ≠ s
   · exact h2
   · cases hu
 
+theorem sliceIdxOK_of_bound {a : Option Int}
+    (h : match a with | some i => i.natAbs ≤ 4294967295 | none => True) : SliceIdxOK a := by
+  cases a with
+  | none => trivial
+  | some i =>
+    have := natDigits_length (n := i.natAbs) h
+    simp only [SliceIdxOK]; omega
+
 mutual
 theorem node_wf' : ∀ (n : SNode), n.WF → n.WF'
   | .str _, _ => by simp [SNode.WF']
@@ -856,7 +943,10 @@ theorem node_wf' : ∀ (n : SNode), n.WF → n.WF'
     simp only [SNode.WF] at h
     simp only [SNode.WF']
     exact expr_wf' e h
-  | .slice _ _, _ => by simp [SNode.WF']
+  | .slice _ _, h => by
+    simp only [SNode.WF] at h
+    simp only [SNode.WF']
+    exact ⟨sliceIdxOK_of_bound h.1, sliceIdxOK_of_bound h.2⟩
   | .paren _ e, h => by
     simp only [SNode.WF] at h
     simp only [SNode.WF']
@@ -907,22 +997,22 @@ theorem charSpell_charLit (a : Nat) : CharSpell a (charLit a) := by
   · rw [if_neg ha]
     exact .raw a ha
 
-theorem numSpell_natDigits {n : Nat} (h : n ≤ 4294967295) : NumSpell n (natDigits n) :=
-  ⟨natDigits_ne_nil n, natDigits_all n, by have := natDigits_length h; omega, natDigits_val n⟩
+theorem numSpell_natDigits (n : Nat) : NumSpell n (natDigits n) :=
+  ⟨natDigits_ne_nil n, natDigits_all n, natDigits_val n⟩
 
-theorem intSpell_intDigits {i : Int} (h : i.natAbs ≤ 4294967295) : IntSpell i (intDigits i) := by
+theorem intSpell_intDigits (i : Int) : IntSpell i (intDigits i) := by
   unfold intDigits
   by_cases hi : i < 0
   · rw [if_pos hi]
     obtain ⟨d, ds, hd, h1, h2⟩ := PRT.natDigits_head (n := i.natAbs) (by omega)
-    have hs := numSpell_natDigits h
+    have hs := numSpell_natDigits i.natAbs
     rw [hd] at hs ⊢
     have := IntSpell.neg (zs := []) (by simp) h1 h2 hs
     have e : -(i.natAbs : Int) = i := by omega
     rw [e] at this
     exact this
   · rw [if_neg hi]
-    have := IntSpell.nonneg (numSpell_natDigits (n := i.toNat) (by omega))
+    have := IntSpell.nonneg (numSpell_natDigits i.toNat)
     have e : (i.toNat : Int) = i := by omega
     rw [e] at this
     exact this
@@ -968,13 +1058,13 @@ theorem spells_string (s : Text) : Spells (.string, s) (spell (.string, s)) :=
 theorem spells_ci (s : Text) : Spells (.stringCI, s) (spell (.stringCI, s)) :=
   ⟨[], escapeBody s, .nil, rfl, strBody_escapeBody s⟩
 
-theorem spells_number {n : Nat} (h : n ≤ 4294967295) :
+theorem spells_number (n : Nat) :
     Spells (.number, natDigits n) (spell (.number, natDigits n)) :=
-  ⟨n, rfl, numSpell_natDigits h⟩
+  ⟨n, rfl, numSpell_natDigits n⟩
 
-theorem spells_integer {i : Int} (h : i.natAbs ≤ 4294967295) :
+theorem spells_integer (i : Int) :
     Spells (.integer, intDigits i) (spell (.integer, intDigits i)) :=
-  ⟨i, rfl, intSpell_intDigits h⟩
+  ⟨i, rfl, intSpell_intDigits i⟩
 
 theorem spells_char (a : Nat) : Spells (.char, charLit a) (spell (.char, charLit a)) :=
   ⟨a, rfl, charSpell_charLit a⟩
@@ -983,33 +1073,32 @@ theorem spells_fixed {k : TK} {v : Text} (h1 : k ≠ .string := by decide) (h2 :
     (h3 : k ≠ .char := by decide) (h4 : k ≠ .number := by decide) (h5 : k ≠ .integer := by decide) :
     Spells (k, v) (spell (k, v)) := spells_plain h1 h2 h3 h4 h5
 
-theorem canon_post {p : Post} (h : WFPost p) : Canon (postKV p) := by
+theorem canon_post (p : Post) : Canon (postKV p) := by
   cases p with
   | opt => exact canon_cons spells_fixed canon_nil
   | rep => exact canon_cons spells_fixed canon_nil
   | rep1 => exact canon_cons spells_fixed canon_nil
-  | exact n => exact canon_cons spells_fixed (canon_cons (spells_number h) (canon_cons spells_fixed canon_nil))
+  | exact n => exact canon_cons spells_fixed (canon_cons (spells_number _) (canon_cons spells_fixed canon_nil))
   | min n =>
-    exact canon_cons spells_fixed (canon_cons (spells_number h)
+    exact canon_cons spells_fixed (canon_cons (spells_number _)
       (canon_cons spells_fixed (canon_cons spells_fixed canon_nil)))
   | max n =>
     exact canon_cons spells_fixed (canon_cons spells_fixed
-      (canon_cons (spells_number h) (canon_cons spells_fixed canon_nil)))
+      (canon_cons (spells_number _) (canon_cons spells_fixed canon_nil)))
   | minmax m n =>
-    exact canon_cons spells_fixed (canon_cons (spells_number h.1) (canon_cons spells_fixed
-      (canon_cons (spells_number h.2) (canon_cons spells_fixed canon_nil))))
+    exact canon_cons spells_fixed (canon_cons (spells_number _) (canon_cons spells_fixed
+      (canon_cons (spells_number _) (canon_cons spells_fixed canon_nil))))
 
-theorem canon_posts : ∀ (ps : List Post), (∀ p ∈ ps, WFPost p) → Canon (ps.map postKV).flatten
-  | [], _ => canon_nil
-  | p :: ps, h => by
+theorem canon_posts : ∀ (ps : List Post), Canon (ps.map postKV).flatten
+  | [] => canon_nil
+  | p :: ps => by
     simp only [List.map_cons, List.flatten_cons]
-    exact canon_append (canon_post (h p (by simp))) (canon_posts ps fun x hx => h x (by simp [hx]))
+    exact canon_append (canon_post p) (canon_posts ps)
 
-theorem canon_optInt {a : Option Int} (h : match a with | some i => i.natAbs ≤ 4294967295 | none => True) :
-    Canon (optIntKV a) := by
+theorem canon_optInt (a : Option Int) : Canon (optIntKV a) := by
   cases a with
   | none => exact canon_nil
-  | some i => exact canon_cons (spells_integer h) canon_nil
+  | some i => exact canon_cons (spells_integer i) canon_nil
 
 theorem canon_barKV (bar : Bool) : Canon (barKV bar) := by
   cases bar
@@ -1039,8 +1128,8 @@ theorem node_canon : ∀ (n : SNode), n.WF → Canon n.kv
     simp only [SNode.WF] at h
     simp only [SNode.kv]
     exact canon_append (canon_append (canon_append (canon_append
-      (canon_cons spells_fixed (canon_cons spells_fixed canon_nil)) (canon_optInt h.1))
-      (canon_cons spells_fixed canon_nil)) (canon_optInt h.2)) (canon_cons spells_fixed canon_nil)
+      (canon_cons spells_fixed (canon_cons spells_fixed canon_nil)) (canon_optInt _))
+      (canon_cons spells_fixed canon_nil)) (canon_optInt _)) (canon_cons spells_fixed canon_nil)
   | .paren bar e, h => by
     simp only [SNode.WF] at h
     simp only [SNode.kv]
@@ -1051,7 +1140,7 @@ theorem term_canon : ∀ (t : STerm), t.WF → Canon t.kv
   | .mk tag pre n post, h => by
     simp only [STerm.WF] at h
     simp only [STerm.kv]
-    refine canon_append (canon_append (canon_append ?_ ?_) (node_canon n h.2.1)) (canon_posts post h.2.2)
+    refine canon_append (canon_append (canon_append ?_ ?_) (node_canon n h.2.1)) (canon_posts post)
     · cases tag with
       | none => exact canon_nil
       | some t => exact canon_cons spells_fixed (canon_cons spells_fixed canon_nil)
@@ -1092,8 +1181,9 @@ theorem docsText'_of_docsText (m : Text) : ∀ (docs : List Text) {t tl : Text},
     (∀ l ∈ docs, IsDocLine l) → DocsText m docs t tl → DocsText' m docs t tl
   | [], _, _, _, h => h
   | l :: ls, t, tl, hd, h => by
-    obtain ⟨ws, t', hws, rfl, hrest⟩ := h
-    refine ⟨10 :: ws, t', .lf hws, by simp, ?_, docsText'_of_docsText m ls (fun x hx => hd x (by simp [hx])) hrest⟩
+    obtain ⟨sp, ws, t', hsp, hws, rfl, hrest⟩ := h
+    refine ⟨sp, 10 :: ws, t', hsp, .lf hws, by simp, ?_,
+      docsText'_of_docsText m ls (fun x hx => hd x (by simp [hx])) hrest⟩
     exact .inr (.inl ⟨ws ++ t', by simp, (docLine_facts (hd l (by simp))).2⟩)
 
 theorem rulesText'_of_rulesText : ∀ (rs : List SRule) {t tl : Text}, (∀ r ∈ rs, r.WF) →
@@ -1160,7 +1250,14 @@ theorem node_wf_iff : ∀ (n : SNode), n.WF ↔ n.WF' ∧ SliceOKN n
   | .ident _ => by simp [SNode.WF, SNode.WF', SliceOKN]
   | .pushLit _ => by simp [SNode.WF, SNode.WF', SliceOKN]
   | .push _ e => by simp only [SNode.WF, SNode.WF', SliceOKN]; exact expr_wf_iff e
-  | .slice a b => by cases a <;> cases b <;> simp [SNode.WF, SNode.WF', SliceOKN]
+  | .slice a b => by
+    constructor
+    · intro h
+      refine ⟨node_wf' _ h, ?_⟩
+      simp only [SNode.WF] at h
+      cases a <;> cases b <;> simp [SliceOKN] at h ⊢ <;> exact h
+    · rintro ⟨_, h⟩
+      cases a <;> cases b <;> simp [SNode.WF, SliceOKN] at h ⊢ <;> exact h
   | .paren _ e => by simp only [SNode.WF, SNode.WF', SliceOKN]; exact expr_wf_iff e
 theorem term_wf_iff : ∀ (t : STerm), t.WF ↔ t.WF' ∧ SliceOKT t
   | .mk tag pre n post => by
